@@ -35,6 +35,10 @@ def cases(tier, seed):
     for j in range(n):
         out.append({"s": int(rng.integers(1 << 30)), "style": ["full", "atomic"][j % 2], "cell": ["ortho", "tri"][(j // 2) % 2],
                     "tilt_signs": [(j // 4) % 2, (j // 8) % 2, (j // 16) % 2], "via": ["method", "save_load_path", "save_load_fileobj"][j % 3], "many_types": j % 6 == 5})
+    # structures of one to a few thousand atoms (four-digit atom ids, more atoms than any block size a writer may use)
+    for j in range(4 if tier == "quick" else 200):
+        out.append({"s": int(rng.integers(1 << 30)), "style": ["full", "atomic"][j % 2], "cell": ["ortho", "tri"][(j // 2) % 2], "tilt_signs": [1, 0, 1],
+                    "via": "method", "many_types": False, "many_atoms": [1300, 2050, 1001, 3100][j % 4] + int(rng.integers(0, 60))})
     return out
 
 
@@ -58,6 +62,8 @@ def build(rng, case):
     masses = atomsgen.real_masses()
     many = case.get("many_types", False)       # type ids with two digits: 10..30 types per kind
     n = int(rng.integers(1, 15)) if not many else int(rng.integers(12, 40))
+    if case.get("many_atoms"):
+        n = int(case["many_atoms"])
     nt = int(rng.integers(1, 5)) if not many else int(rng.integers(10, 31))
     pool = atomsgen.ELEMENT_POOL if not many else [e for e in masses if e not in ("Cm", "Bk")][:60]
     els = [pool[int(i)] for i in rng.choice(len(pool), size=nt, replace=bool(rng.integers(3) == 0))]   # one in three: types share elements
@@ -377,6 +383,8 @@ def run_case(case, ctx):
         st.count("structures_with_coordinates_beyond_the_usual_field_width")
     if case.get("_empty_label"):
         st.count("structures_with_an_empty_type_label")
+    if case.get("many_atoms"):
+        st.count("structures_with_more_than_a_thousand_atoms")
     if case.get("_non_ascii"):
         st.count("structures_with_non_ascii_labels_and_comments.via_%s" % case["via"])
     if case.get("_table_without_terms"):
@@ -485,6 +493,8 @@ def requirements(stats, tier):
         need.append("structures with coordinates <= -100 or >= 1000: %d" % stats.get("structures_with_coordinates_beyond_the_usual_field_width"))
     if stats.get("structures_with_non_ascii_labels_and_comments.via_save_load_path") < (5 if tier == "quick" else 500):
         need.append("structures with non-ASCII labels and comments saved to and loaded from a path: %d" % stats.get("structures_with_non_ascii_labels_and_comments.via_save_load_path"))
+    if stats.get("structures_with_more_than_a_thousand_atoms") < (4 if tier == "quick" else 150):
+        need.append("structures with more than a thousand atoms: %d" % stats.get("structures_with_more_than_a_thousand_atoms"))
     if stats.nseen("array_flavour") < 5:
         need.append("array flavours of the structure (integer widths, memory order, read-only): %s" % sorted(stats.sets.get("array_flavour", [])))
     if stats.get("structures_with_an_empty_type_label") < (5 if tier == "quick" else 1000):
